@@ -171,6 +171,9 @@ class SFloat:
         lo = 0 if self.lo <= 0 <= self.hi else min(abs(self.lo), abs(self.hi))
         return SFloat(z3.If(self.t >= 0, self.t, -self.t), lo, self.mag, self.g)
 
+    fabs = __abs__
+    absolute = __abs__
+
     def __mul__(self, o):
         o = SFloat.lift(o)
         if o is None:
